@@ -36,6 +36,8 @@ DOC_MAP = {
     cabc.Sequence: list, cabc.MutableSequence: list, cabc.Collection: list, cabc.Iterable: list,
     cabc.Set: set, cabc.MutableSet: set, cabc.Mapping: dict, cabc.MutableMapping: dict, cabc.Hashable: str,
 }
+if hasattr(cabc, "ByteString"):
+    DOC_MAP[cabc.ByteString] = bytes
 BUILTINS = (int, bool, float, str, bytes, bytearray, list, set, frozenset, tuple, dict, type(None))
 DOC_COLLECTIONS = (list, set, tuple, frozenset, dict, str, bytes)
 DOC_MAPPINGS = (dict, sqlite3.Row, types.MappingProxyType, cabc.Mapping)
